@@ -1,0 +1,46 @@
+//go:build verif
+
+package sample
+
+// Export-only accessors for the verification harness (property C12). No behaviour.
+
+// VerifC12Dynsampler returns the dynsampler-go instance behind a dynsampler-backed sampler
+// (nil for every other sampler type). Instances are compared by identity only.
+func VerifC12Dynsampler(s Sampler) any {
+	switch x := s.(type) {
+	case *DynamicSampler:
+		return x.dynsampler
+	case *EMADynamicSampler:
+		return x.dynsampler
+	case *EMAThroughputSampler:
+		return x.dynsampler
+	case *WindowedThroughputSampler:
+		return x.dynsampler
+	case *TotalThroughputSampler:
+		return x.dynsampler
+	}
+	return nil
+}
+
+// VerifC12Downstream returns the downstream samplers of a RulesBasedSampler, one entry per rule of
+// the configuration that has a downstream sampler, in rule order (nil entry: not created).
+func VerifC12Downstream(s Sampler) []Sampler {
+	r, ok := s.(*RulesBasedSampler)
+	if !ok {
+		return nil
+	}
+	var out []Sampler
+	for _, rule := range r.Config.Rules {
+		if rule.Sampler != nil {
+			out = append(out, r.samplers[rule.String()])
+		}
+	}
+	return out
+}
+
+// VerifC12RegistrySize returns the number of shared dynsampler instances the factory holds.
+func VerifC12RegistrySize(f *SamplerFactory) int {
+	f.mutex.Lock()
+	defer f.mutex.Unlock()
+	return len(f.sharedDynsamplers)
+}
